@@ -650,11 +650,20 @@ fn leaf_hash(e: &Env, alg: Alg, leaf: &Leaf) -> H32 {
     hash(alg, &raw)
 }
 
+/// ledgers per day (5 s ledgers), as in the library's `DAY_IN_LEDGERS`
+const DAY: u32 = 17280;
+/// one year: with `min_persistent_entry_ttl = MAX_TTL - 1` the persistent / instance entries
+/// of the unmodified code stay live over the whole horizon of a sequence (< 250 days); what
+/// the network does with a persistent entry beyond its TTL (archival) is outside the model
+const MAX_TTL: u32 = 6_312_000;
+const START: u32 = 1000;
+
 struct DistSim {
     e: Env,
     addr: Address,
     alg: Alg,
     w: u32,
+    now: std::cell::Cell<u32>,
 }
 
 impl DistSim {
@@ -669,6 +678,19 @@ impl DistSim {
             }
         }
         format!("{} root={} claimed={}", if ok { "ok" } else { "err" }, root.map(|r| hex(&r.to_array())).unwrap_or("none".into()), join(&cl))
+    }
+    /// move the ledger forward by `d` ledgers without touching the contract; `look`: observe
+    /// root and flags afterwards (every `is_claimed` that finds a flag extends its TTL), or
+    /// leave all entries untouched until the next operation
+    fn advance(&self, t: &mut Trace, d: u32, look: bool) {
+        self.now.set(self.now.get() + d);
+        set_ledger(&self.e, self.now.get(), 16, MAX_TTL);
+        t.op(&format!("advance d={} look={}", d, look as u8));
+        if look {
+            t.obs(&self.obs(true));
+        } else {
+            t.obs(&format!("ok now={}", self.now.get()));
+        }
     }
     fn set_root(&self, t: &mut Trace, root: &H32) {
         t.op(&format!("setroot root={}", hex(root)));
@@ -719,11 +741,11 @@ fn make_drop(e: &Env, alg: Alg, indexed: bool, n: usize, tag: u32, rng: &mut Rng
 }
 
 fn dist_history(t: &mut Trace, rng: &mut Rng, alg: Alg, indexed: bool, n: usize, steps: usize) {
-    let e = Env::default();
+    let e = new_env(START, 16, MAX_TTL);
     let addr = if alg == Alg::Sha { e.register(DistSha, ()) } else { e.register(DistKec, ()) };
     let w = n as u32 + 3;
-    let sim = DistSim { e, addr, alg, w };
-    t.seq(&format!("dist alg={} w={}", alg.name(), w));
+    let sim = DistSim { e, addr, alg, w, now: std::cell::Cell::new(START) };
+    t.seq(&format!("dist alg={} w={} start={}", alg.name(), w, START));
     let a = make_drop(&sim.e, alg, indexed, n, 1, rng);
     let b = make_drop(&sim.e, alg, indexed, n, 2, rng);
     // a claim before any root is set
@@ -731,14 +753,36 @@ fn dist_history(t: &mut Trace, rng: &mut Rng, alg: Alg, indexed: bool, n: usize,
     sim.set_root(t, &a.root);
     let mut cur = &a;
     let mut other = &b;
+    // indices claimed (attempted honestly) so far under either root, for neighbours and repeats
+    let mut touched: Vec<usize> = vec![];
+    let mut days_left: u32 = 240;
     for _ in 0..steps {
-        let i = rng.below(n as u64) as usize;
-        match rng.below(20) {
-            0..=9 => sim.claim(t, indexed, &cur.leaves[i], &cur.items[i].proof, "honest"),
+        // the next index: a bit-pattern neighbour of an earlier one (i +- 1, 32, 64, 128, 256),
+        // an earlier one again, or a fresh random one
+        let i = if !touched.is_empty() && rng.chance(55) {
+            let j = *rng.pick(&touched) as i64;
+            let d = *rng.pick(&[1i64, 32, 64, 64, 128, 128, 256]) * if rng.chance(50) { 1 } else { -1 };
+            let k = j + d;
+            if k >= 0 && (k as usize) < n {
+                k as usize
+            } else if j - d >= 0 && ((j - d) as usize) < n {
+                (j - d) as usize
+            } else {
+                j as usize
+            }
+        } else {
+            rng.below(n as u64) as usize
+        };
+        match rng.below(24) {
+            0..=9 => {
+                sim.claim(t, indexed, &cur.leaves[i], &cur.items[i].proof, "honest");
+                touched.push(i);
+            }
             10 => {
                 // immediately repeated
                 sim.claim(t, indexed, &cur.leaves[i], &cur.items[i].proof, "honest");
                 sim.claim(t, indexed, &cur.leaves[i], &cur.items[i].proof, "repeat");
+                touched.push(i);
             }
             11 => {
                 // proof of another leaf
@@ -749,7 +793,10 @@ fn dist_history(t: &mut Trace, rng: &mut Rng, alg: Alg, indexed: bool, n: usize,
             12 => {
                 // leaf data of i under another index (the index is part of the hashed leaf)
                 let mut l = cur.leaves[i].clone();
-                l.index = (i as u32 + 1) % w;
+                l.index = (i as u32 + *rng.pick(&[1u32, 64, 128])) % w;
+                if l.index == i as u32 {
+                    l.index = (i as u32 + 1) % w;
+                }
                 sim.claim(t, indexed, &l, &cur.items[i].proof, "c:otherindex");
             }
             13 => {
@@ -786,15 +833,45 @@ fn dist_history(t: &mut Trace, rng: &mut Rng, alg: Alg, indexed: bool, n: usize,
                 std::mem::swap(&mut cur, &mut other);
                 sim.set_root(t, &cur.root);
             }
-            _ => {
+            19 => {
                 // a far index: a one-leaf distribution is not the current root
                 let l = Leaf { index: u32::MAX - rng.below(2) as u32, amount: 1, tag: 9 };
                 sim.claim(t, indexed, &l, &[], "c:otherroot");
             }
+            _ => {
+                // time passes (1, 31 or 100 days) with nobody touching the contract; then an index
+                // claimed earlier is claimed again with its valid proof: refused forever
+                let days = *rng.pick(&[1u32, 31, 31, 100]);
+                if days <= days_left {
+                    days_left -= days;
+                    sim.advance(t, days * DAY + rng.below(3) as u32, false);
+                    if let Some(&j) = touched.last() {
+                        let j = if rng.chance(50) { j } else { *rng.pick(&touched) };
+                        sim.claim(t, indexed, &cur.leaves[j], &cur.items[j].proof, "repeat-later");
+                    }
+                    if rng.chance(30) && days_left > 0 {
+                        days_left -= 1;
+                        sim.advance(t, DAY, true);
+                    }
+                }
+            }
         }
     }
-    // finally every leaf of the current distribution once more: claimed ones are refused
-    for i in 0..n {
+    // a month later every leaf (of a sample, in large universes) of the current distribution once
+    // more: claimed ones are refused, the flags of all others are still clear
+    if days_left >= 31 {
+        sim.advance(t, 31 * DAY, false);
+    }
+    let sweep: Vec<usize> = if n <= 40 {
+        (0..n).collect()
+    } else {
+        let mut v: Vec<usize> = touched.iter().rev().take(10).cloned().collect();
+        for _ in 0..14 {
+            v.push(rng.below(n as u64) as usize);
+        }
+        v
+    };
+    for i in sweep {
         sim.claim(t, indexed, &cur.leaves[i], &cur.items[i].proof, "sweep");
     }
 }
@@ -802,7 +879,7 @@ fn dist_history(t: &mut Trace, rng: &mut Rng, alg: Alg, indexed: bool, n: usize,
 // ------------------------------------------------------------------ the airdrop example
 
 fn airdrop_history(t: &mut Trace, rng: &mut Rng, n: usize, steps: usize) {
-    let e = Env::default();
+    let e = new_env(START, 16, MAX_TTL);
     e.mock_all_auths_allowing_non_root_auth();
     let nrcv = 4usize;
     let rcv: Vec<Address> = (0..nrcv).map(|_| <Address as soroban_sdk::testutils::Address>::generate(&e)).collect();
@@ -828,7 +905,7 @@ fn airdrop_history(t: &mut Trace, rng: &mut Rng, n: usize, steps: usize) {
     e.mock_all_auths_allowing_non_root_auth();
     let air = e.register(airdrop::AirdropContract, (BytesN::from_array(&e, &root), tok.clone(), funding, funder.clone()));
     let w = n as u32 + 2;
-    t.seq(&format!("airdrop alg=sha w={} root={} pool={} nrcv={}", w, hex(&root), funding, nrcv));
+    t.seq(&format!("airdrop alg=sha w={} root={} pool={} nrcv={} start={}", w, hex(&root), funding, nrcv, START));
     let bal = |a: &Address| -> i128 { query(&e, &tok, "balance", args(&e, [v(&e, a.clone())])).unwrap() };
     let obs = |ok: bool| -> String {
         let mut cl = vec![];
@@ -881,6 +958,10 @@ fn airdrop_history(t: &mut Trace, rng: &mut Rng, n: usize, steps: usize) {
             }
         }
     }
+    // 31 days later, nobody having touched the contract: every leaf once more
+    set_ledger(&e, START + 31 * DAY, 16, MAX_TTL);
+    t.op(&format!("advance d={} look=0", 31 * DAY));
+    t.obs(&format!("ok now={}", START + 31 * DAY));
     for i in 0..n {
         claim(t, &data[i], &its[i].proof, "sweep");
     }
@@ -895,12 +976,19 @@ fn main() {
     hash_cases(&mut t, &mut rng, thorough);
     tree_cases(&mut t, &mut rng, thorough);
     let hist = arg_u64("--hist", if thorough { 40 } else { 6 }) as usize;
+    let big = arg_u64("--big", if thorough { 12 } else { 2 }) as usize;
     for k in 0..hist {
         for alg in [Alg::Sha, Alg::Kec] {
             for indexed in [false, true] {
                 let n = *rng.pick(&[1usize, 2, 3, 5, 8, 13, 16, 17]);
                 let n = if k == 0 { 8 } else { n };
                 dist_history(&mut t, &mut rng, alg, indexed, n, 30 + 2 * n);
+                // index universes well above 128: every flag of the universe is observed after
+                // every operation
+                if k < big {
+                    let n = *rng.pick(&[130usize, 193, 200, 257, 300]);
+                    dist_history(&mut t, &mut rng, alg, indexed, n, 45);
+                }
             }
         }
         let n = *rng.pick(&[1usize, 2, 4, 7, 12]);
